@@ -13,6 +13,7 @@ from __future__ import annotations
 import ast
 
 from sa import mutate as M
+from sa import pattern as PT
 from sa.ctx import Ctx
 from sa.loader import AnalysisError, call_name, norm, own_nodes, parent
 from sa.ranges import has, has_bound, refusal_constraints
@@ -74,7 +75,7 @@ def rule_on_curve(ctx: Ctx, rep: Report) -> None:
     roc = ctx.func(f"{CG}.CurveGroup.require_on_curve")
     rep.ob(rule, "require_on_curve:refuses", any(c.op == "falsy" and "is_on_curve" in c.subject for c in refusal_constraints(ctx, roc)), roc.where(), "raises unless is_on_curve")
     ioc = ctx.func(f"{CG}.CurveGroup.is_on_curve")
-    txt = norm(ioc.node)
+    txt = PT.text(ioc)
     rep.ob(rule, "is_on_curve:equation", "self._y2(Q[0]) == Q[1] * Q[1] % self.p" in txt, ioc.where(), "y^2 == x^3 + ax + b (mod p)")
     rep.ob(rule, "is_on_curve:y_range", any(c.subject == "Q[1]" for c in refusal_constraints(ctx, ioc)), ioc.where(), "y outside 1..p-1 refused (0 is infinity)")
     bp = ctx.func("btclib.curves.sec_point.bytes_from_point")
@@ -167,7 +168,7 @@ def rule_refuse_arith(ctx: Ctx, rep: Report) -> None:
         and any(isinstance(c, ast.Call) and norm(c) == "pow(a, -1, m)" for s in tr[0].body for c in ast.walk(s))
     rep.ob(rule, "mod_inv_var", ok, mi.where(), "pow(a, -1, m): no inverse becomes a BTClibValueError")
     m2 = ctx.func(f"{NT}.mod_inv")
-    txt = norm(m2.node)
+    txt = PT.text(m2)
     rep.ob(rule, "mod_inv:blinding", "b = 1 + secrets.randbelow(m - 1) if m > 1 else 1" in txt and "mod_inv_var(a * b % m, m) * b % m" in txt, m2.where(), "blinded by a non-zero random factor, unblinded by the same")
     rep.ob(rule, "mod_inv:fallback_refuses", "except BTClibValueError: return mod_inv_var(a, m)" in txt, m2.where(), "a blinded failure is re-asked unblinded (so a true non-invertible still raises)")
     for q in (f"{NT}.mod_sqrt_var", f"{NT}.tonelli_var"):
@@ -198,7 +199,7 @@ def rule_sec_prefix(ctx: Ctx, rep: Report) -> None:
     els = [n for n in own_nodes(pf.node) if isinstance(n, ast.Raise)]
     g = ctx.cfg(pf)
     rep.ob(rule, "other_prefix_refused", g.path_avoiding([g.exit_return], [i for n in g.nodes if n.kind == "test" and norm(n.ast) in ("prefix in {2, 3}", "prefix == 4", "prefix in {6, 7}") for i in [n.id]]) is None, pf.where(), "no return without a prefix test")
-    txt = norm(pf.node)
+    txt = PT.text(pf)
     rep.ob(rule, "parity_selects_y", "y_Q if prefix == 2 else ec.p - y_Q" in txt, pf.where(), "0x02 = even y, 0x03 = odd y")
     rep.ob(rule, "uncompressed_on_curve", "require_on_curve" in txt or "is_on_curve" in txt, pf.where(), "an uncompressed point is checked against the curve")
     hy = [n for n in own_nodes(pf.node) if isinstance(n, ast.If) and "hybrid" in norm(n.test) and "% 2" in norm(n.test) or (isinstance(n, ast.Compare) and "prefix" in norm(n) and "% 2" in norm(n))]
